@@ -15,7 +15,7 @@ EXHAUSTIVE = {"quick": True, "thorough": True}
 RULE = (
     "24-operation alphabet over a colliding name pool (4 long names, 3 short letters, aliases, 3 argument names): add_option x6, "
     "add_command_option x7 (0-2 long/short aliases), add_argument x6 (required/optional/multi), add_command_name, set_options, "
-    "set_arguments x2, set_command_options; 6 base stacks of depth 0-2. Every sequence up to length L is replayed from scratch; "
+    "set_arguments x2, set_command_options; 9 base stacks of depth 0-3 (three of them with levels that define nothing). Every sequence up to length L is replayed from scratch; "
     "after the last operation builder, built format and list model answer every public query (has/get option and command "
     "option for 8 names, has/get argument by 4 names and all positions, the has_* predicates, ordered listings, each with "
     "include_base True/False); a rejected add_* must leave the answers identical to those before it; invariants are checked "
@@ -24,8 +24,8 @@ RULE = (
     "collision or ordering-rule attempt (some operation rejected, or a set_* after an add_*); distinct by (base id, op tuple)."
 )
 BOUND = {
-    "quick": "all sequences of length <= 3 over 24 operations x 6 base stacks (87k), 30000 random of length 4-7, 3000 CommandConfig stacks",
-    "thorough": "all sequences of length <= 4 x 6 base stacks (2.1M), 600000 random of length 5-7, 60000 CommandConfig stacks",
+    "quick": "all sequences of length <= 3 over 24 operations x 9 base stacks (130k), 30000 random of length 4-7, 3000 CommandConfig stacks",
+    "thorough": "all sequences of length <= 4 x 9 base stacks (3.1M), 600000 random of length 5-7, 60000 CommandConfig stacks",
 }
 ASSUMPTIONS = [
     "option listings are compared as sets against the model and in order between builder and format; argument and command-name listings in order (base first)",
@@ -69,6 +69,10 @@ BASES = [
     [[A("x", "opt")]],
     [[CO("dd", "c", ["bb"]), A("y", "req")]],
     [[O("bb", "b"), A("x", "req")], [O("cc", None), A("y", "opt")]],
+    # levels that define nothing of their own, above and between levels that do
+    [[O("aa", "a"), A("x", "opt")], []],
+    [[], [CO("dd", "c", ["bb"])], []],
+    [[O("bb", "b")], [], [A("x", "req"), A("y", "opt")]],
 ]
 
 
